@@ -141,3 +141,25 @@ def memory_table():
           and all_of([rows[i][0][1] == "0x" + format(words[i], "08X") for i in range(len(words))])
           and all_of([rows[i][1] == t[words[i]] for i in range(len(words))]))
     check_same("pure", before, snapshot(sim))
+    # the table is recomputed from the store, not remembered: stores made after an inspection (here: a word store that
+    # straddles two listed words and a byte store into a new word) show in the next one
+    nv = sym_fixed("stored_word", UInt32)
+    nb = sym_fixed("stored_byte", UInt8)
+    m.write_word(LO + 2, nv)
+    m.write_byte(LO + 130, nb)
+    for k in range(4):
+        vals[LO + 2 + k] = (int(nv) // 256 ** k) % 256
+    vals[LO + 130] = nb
+    t2 = m.wordwise_repr()
+    words2 = sorted(set([a - a % 4 for a in vals]))
+    ok2 = sorted(t2.keys()) == words2
+    for w in words2:
+        v = 0
+        for k in range(4):
+            if (w + k) in vals:
+                v = v + int(vals[w + k]) * 256 ** k
+        e = expected(v, 32)
+        ok2 = ok2 & (t2[w][0] == e[0]) & (t2[w][1] == e[1]) & (t2[w][2] == e[2]) & (t2[w][3] == e[3])
+    check("an_inspection_after_further_stores_shows_the_new_values", ok2)
+    rows2 = sim.get_data_memory_entries()
+    check("so_does_the_table", [r[0][0] for r in rows2] == words2 and all_of([rows2[i][1] == t2[words2[i]] for i in range(len(words2))]))
